@@ -10,11 +10,17 @@
 (*   f  = COMPONENTS.static_files_forbidden                                *)
 (*   fo = COMPONENTS.forbidden_static_files   (deprecated name of f)       *)
 (* each [set |-> BOOLEAN, pats |-> sequence of patterns]; an unset list    *)
-(* means the documented default.  A pattern is a suffix string ("a file    *)
-(* extension including the leading dot") or one of a small catalogue of    *)
-(* compiled regular expressions, each given here by its predicate (the     *)
-(* harness holds the re.Pattern of the same id and calibrates the two      *)
-(* against each other).                                                    *)
+(* means the documented default.  A pattern is a suffix string or one of a  *)
+(* small catalogue of compiled regular expressions, each given here by its *)
+(* predicate (the harness holds the re.Pattern of the same id and          *)
+(* calibrates the two against each other).                                 *)
+(* A suffix string is matched as given: the file "ends with" it, literally.*)
+(* The usual entry is an extension with its leading dot (".js"), but the   *)
+(* property speaks of suffixes: "_test.js", "min.js", "LICENSE" (a whole   *)
+(* file name) are suffixes too, and a string entry is never rewritten      *)
+(* (no dot is added or removed, no case folding): "js" matches the files   *)
+(* "js" and "nodejs", ".js" matches neither; "min.js" matches "admin.js",  *)
+(* ".min.js" does not.  See SuffixInScope for the strings that are used.   *)
 (*                                                                         *)
 (*   Exposed(p, c) == some allowed pattern matches p                       *)
 (*                    /\ no forbidden pattern matches p                    *)
@@ -69,6 +75,15 @@ RegexPred(id, n) ==
     [] id = "no_ext"     -> Len(Base(n)) > 0 /\ ~Contains(Base(n), ".")           \* (^|/)[^./]+\Z
 
 Matches(p, n) == IF p.k = "suffix" THEN EndsWith(n, p.s) ELSE RegexPred(p.s, n)
+\* A suffix without "/" never reaches across a directory separator: whether "the name" of the
+\* property is the base name, the path relative to the component directory (what list() sees) or
+\* the absolute path (what find() sees) makes no difference (theorem, checked by TLC on every case).
+BaseNameSuffices(p, n) == p.k = "suffix" => (Matches(p, n) <=> EndsWith(Base(n), p.s))
+\* What rewriting a plain suffix into an "extension" would change: prepending a dot only ever loses
+\* matches, exactly the names where the suffix is not preceded by a dot (or is the whole name).
+Dotted(p) == IF p.k = "suffix" /\ ~StartsWith(p.s, ".") THEN Sfx("." \o p.s) ELSE p
+DotPrependNarrows(p, n) == Matches(Dotted(p), n) => Matches(p, n)
+TellsDotted(p, n) == Matches(p, n) /\ ~Matches(Dotted(p), n)
 
 (* ---- configurations --------------------------------------------------- *)
 Unset == [set |-> FALSE, pats |-> <<>>]
@@ -150,6 +165,9 @@ NoEscape(l, tree, c) == Expect(l, tree, c) # "hide" => Inside(l) /\ Exposed(RelO
 \* escaped, the others keep their regex meaning, and "$" also matches before a final newline.
 \* Modelled for suffixes whose characters after the first are literals, "." (any character but
 \* newline) and at most a trailing "++" (possessive repetition of the preceding literal).
+\* The deviation is modelled for suffixes with a leading dot only (an escaped "." is a literal dot; an
+\* escaped letter is a character class or an error).  A suffix without leading dot has no deviation
+\* model: DevSuffixMatch = EndsWith, no key, every difference is a plain violation.
 OpChars == {"+", "*", "?", "(", ")", "[", "]", "{", "}", "|", "^", "$", "\\"}
 HasOp(s) == \E i \in 1..Len(s) : Ch(s, i) \in OpChars
 PlusPlus(s) == /\ Len(s) >= 4 /\ EndsWith(s, "++") /\ ~HasOp(SubSeq(s, 1, Len(s) - 2))
@@ -170,8 +188,14 @@ WildEndsPP(n, s) == \* s = B ++ "++": n ends with B minus its last char, then th
      /\ WildEnds(SubSeq(n, 1, Len(n) - k), pre)
 WildEndsAny(n, s) == IF PlusPlus(s) THEN WildEndsPP(n, s) ELSE WildEnds(n, s)
 DevSuffixMatch(n, s) ==
+  IF ~StartsWith(s, ".") THEN EndsWith(n, s) ELSE
   \/ WildEndsAny(n, s)
   \/ EndsWith(n, "\n") /\ WildEndsAny(SubSeq(n, 1, Len(n) - 1), s)
+\* The suffix strings the generators use: non-empty (whether "" is a suffix of everything is left out),
+\* no "/" (see BaseNameSuffices) and no newline; with a leading dot they stay inside the deviation
+\* model, without one any other character is allowed (regex metacharacters are literal).
+SuffixInScope(s) == /\ Len(s) >= 1 /\ ~Contains(s, "/") /\ ~Contains(s, "\n")
+                    /\ (StartsWith(s, ".") => DevModelled(s))
 DevMatches(p, n) == IF p.k = "suffix" THEN DevSuffixMatch(n, p.s) ELSE RegexPred(p.s, n)
 DevExposed(n, c) == /\ \E p \in EffAllowed(c) : DevMatches(p, n)
                     /\ ~ \E p \in EffForbidden(c) : DevMatches(p, n)
